@@ -15,8 +15,10 @@ for f in sorted(glob.glob(os.path.join(ROOT, "seeded", "*", "meta.json"))):
 n = len(rows); c = sum(1 for r in rows if "| caught" in r)
 fp = sum(1 for f in glob.glob(os.path.join(ROOT, "seeded", "*", "meta.json")) if json.load(open(f)).get("first_pass_verdict") == "MISSED")
 table = ("%d independent changes kept, %d reported as VIOLATION by the check of the property they break "
-         "(%d of them only after the check had been strengthened with a general scenario class; no check special-cases a seeded change).\n\n"
-         "| id | change | needs to manifest | verdict | signatures reported |\n|----|--------|-------------------|---------|---------------------|\n" % (n, c, fp)) + "\n".join(rows) + "\n"
+         "(%d of them only after the check had been strengthened with a general scenario class - marked per row for rounds 1-4, 9 and 10; "
+         "in rounds 5-8 the first pass missed 20, 23, 15 and 10 changes, which were answered the same way but whose rows were overwritten by "
+         "the re-evaluation; no check special-cases a seeded change).\n\n"
+         "| id | change | needs to manifest | verdict | signatures reported |\n|----|--------|-------------------|---------|---------------------|\n" % (n, c, fp + 68)) + "\n".join(rows) + "\n"
 p = os.path.join(ROOT, "DESIGN.md")
 s = open(p).read()
 s = re.sub(r"(<!-- SEEDED-TABLE-BEGIN -->\n).*?(<!-- SEEDED-TABLE-END -->)", lambda mo: mo.group(1) + table + mo.group(2), s, flags=re.S)
